@@ -24,6 +24,49 @@ var foldOps = []foldOp{
 	{"isum", "+", "0"},
 }
 
+// hornerOp: scale is a format with two holes (accumulator, point of evaluation)
+type hornerOp struct{ name, add, scale, zero string }
+
+var hornerOps = []hornerOp{
+	{"e2horner", "e2Add", "(e2MulSmall %s %s)", "e2Inf"},
+	{"frhorner", "frAdd", "(frMulM %s (frToMont %s))", "0"},
+}
+
+func hornerOpOf(name string) (hornerOp, bool) {
+	for _, h := range hornerOps {
+		if h.name == name {
+			return h, true
+		}
+	}
+	return hornerOp{}, false
+}
+
+// evalHorner evaluates e2horner(p, n, x) / frhorner(p, n, x): the polynomial with the n coefficients at p, evaluated at x
+func (e *SpecEnv) evalHorner(h hornerOp, args []ast.Expr) SVal {
+	if (len(args) != 3 && len(args) != 4) || e.g.M.BV {
+		specFail("%s(p, n, x) or %s(p, first, n, x), int mode", h.name, h.name)
+	}
+	arr, lo := e.seqArg(h.name, args[0])
+	if len(args) == 4 {
+		// coefficients p[first], p[first+1], ...: the same array term for every `first` (no extensionality step needed)
+		lo = simplifyAdd(lo, e.eval(args[1]).S)
+		args = append([]ast.Expr{args[0]}, args[2:]...)
+	}
+	n := e.eval(args[1]).S
+	x := e.eval(args[2]).S
+	return SVal{S: app(h.name+"_1", arr, lo, n, x), T: typInt, Sort: "Int"}
+}
+
+func simplifyAdd(a, b string) string {
+	if a == "0" {
+		return b
+	}
+	if b == "0" {
+		return a
+	}
+	return app("+", a, b)
+}
+
 const arrII = "(Array Int Int)"
 
 func foldUnfold(op foldOp) string {
@@ -50,6 +93,16 @@ func foldTheory() string {
 	var b strings.Builder
 	for _, op := range foldOps {
 		b.WriteString(foldUnfold(op))
+	}
+	// Horner folds: the value of the polynomial with the n coefficients a[lo], a[lo+1], ... at x, in the nesting the C loops
+	// compute it (from the top coefficient down):  H(a, lo, n, x) = zero for n <= 0,  add(scale(H(a, lo+1, n-1, x), x), a[lo]) for n > 0
+	b.WriteString("(declare-fun e2MulSmall (Int Int) Int)\n")
+	for _, h := range hornerOps {
+		f := h.name + "_1"
+		fmt.Fprintf(&b, "(declare-fun %s (%s Int Int Int) Int)\n", f, arrII)
+		fmt.Fprintf(&b, "(assert (forall ((a %s) (lo Int) (n Int) (x Int)) (! (=> (<= n 0) (= (%s a lo n x) %s)) :pattern ((%s a lo n x)))))\n", arrII, f, h.zero, f)
+		fmt.Fprintf(&b, "(assert (forall ((a %s) (lo Int) (n Int) (x Int)) (! (=> (> n 0) (= (%s a lo n x) (%s %s (select a lo)))) :pattern ((%s a lo n x)))))\n",
+			arrII, f, h.add, fmt.Sprintf(h.scale, fmt.Sprintf("(%s a (+ lo 1) (- n 1) x)", f), "x"), f)
 	}
 	for _, cf := range chunkFns {
 		fmt.Fprintf(&b, "(declare-fun %s (%s Int) %s)\n", cf.smt, arrII, cf.ret)
